@@ -309,6 +309,18 @@ m = g(r.sub, p.sub) && r.obj == p.obj && r.act == p.act
 // calls, like the database adapters.  While a filtered view is loaded the enforcer refuses
 // SavePolicy (C18), but every single management call still has to reach the store: what is
 // persisted is what is enforced, for the rules the view contains.
+var c10FilteredConf = machConf{Name: "rbac1", Text: `[request_definition]
+r = sub, obj, act
+[policy_definition]
+p = sub, obj, act
+[role_definition]
+g = _, _
+[policy_effect]
+e = some(where (p.eft == allow))
+[matchers]
+m = g(r.sub, p.sub) && r.obj == p.obj && r.act == p.act
+`, Defs: []machDef{{"g", true, 2, -1}, {"p", false, 3, -1}}}
+
 type c10FilteredStore struct {
 	*recAdapter
 	filtered bool
@@ -342,7 +354,7 @@ func c10FilteredViews(c *Ctx) {
 		st := &c10FilteredStore{recAdapter: newRecAdapter()}
 		st.Content = []prule{{"p", []string{"alice", "data1", "read"}}, {"p", []string{"bob", "data2", "write"}}, {"p", []string{"alice", "data2", "read"}},
 			{"g", []string{"alice", "admin"}}, {"g", []string{"bob", "admin"}}, {"p", []string{"admin", "data1", "write"}}}
-		mm, _ := model.NewModelFromString(c11Conf.Text)
+		mm, _ := model.NewModelFromString(c10FilteredConf.Text)
 		e, err := casbin.NewEnforcer(mm)
 		if err != nil {
 			panic(err)
@@ -393,11 +405,11 @@ func c10FilteredViews(c *Ctx) {
 			}
 		}
 		// a second enforcer loading the same view decides alike
-		m2, _ := model.NewModelFromString(c11Conf.Text)
+		m2, _ := model.NewModelFromString(c10FilteredConf.Text)
 		e2, _ := casbin.NewEnforcer(m2)
 		e2.SetAdapter(st)
 		if err := e2.LoadFilteredPolicy("alice"); err == nil {
-			reqs := c10Requests(c11Conf)
+			reqs := c10Requests(c10FilteredConf)
 			if a, b := c10Decisions(e, reqs), c10Decisions(e2, reqs); a != b {
 				c.Direct(id, "an enforcer freshly loaded with the same filtered view decides differently", fmt.Sprintf("trace=%s origin=%s fresh=%s", strings.Join(trace, "; "), a, b))
 			}
